@@ -70,3 +70,46 @@ termination_by _ cs => cs.length
 decreasing_by all_goals simp_wf <;> omega
 
 end StoneVerif.Fmt
+
+namespace StoneVerif.Fmt
+
+/-- What the output buffer is made of, seen from the specification side: literal text (whatever
+`emit_raw` was given) and replacement fields (`emit_placeholder`). -/
+inductive Seg where
+  | lit (text : List Char)
+  | field (name : List Char)
+
+/-- how each segment is stored in `Backend.output` -/
+def encodeSeg : Seg → List Char
+  | .lit t => escape t
+  | .field n => '{' :: n ++ ['}']
+
+/-- `''.join(self.output)` for a buffer built from these segments -/
+def renderSegs (segs : List Seg) : List Char := (segs.map encodeSeg).flatten
+
+/-- Specification of the final text: literals verbatim, `{}` fields replaced by the next positional
+placeholder, `{name}` fields by the registered text; `none` when a placeholder was never registered. -/
+def expand (named : List (List Char × List Char)) : List (List Char) → List Seg → Option (List Char)
+  | _, [] => some []
+  | pos, .lit t :: rest => (expand named pos rest).map (t ++ ·)
+  | pos, .field n :: rest =>
+    if n = [] then
+      match pos with
+      | v :: pos' => (expand named pos' rest).map (v ++ ·)
+      | [] => none
+    else
+      match lookupNamed named n with
+      | some v => (expand named pos rest).map (v ++ ·)
+      | none => none
+
+/-- Field names inside the modelled subset of `str.format`: no brace, no conversion / format-spec /
+attribute / index syntax, not a number (a number would be an explicit positional index). The
+harness only generates such names. -/
+def validNameChar (c : Char) : Bool :=
+  c.isAlphanum || c == '_'
+
+def validName : List Char → Bool
+  | [] => true
+  | c :: cs => (c.isAlpha || c == '_') && cs.all validNameChar
+
+end StoneVerif.Fmt
